@@ -219,16 +219,18 @@ impl Prop for C07 {
     }
 
     fn rule(&self) -> String {
-        "case index cycles over the seven games (Frontlines: Fuel of War, Savage 2, Just Cause 2: Multiplayer, Mindustry, The Ship, Battalion 1944, Eco); the tape draws the reply (full numeric ranges, empty and long strings, optional trailing fields, 0-100 players, each Battalion override rule present or not, reported-vs-listed player counts), the query variant (query / query_with_timeout) and the transport (challenge rounds, split); oracle: field-for-field equality with the model; non-trivial = a reply was received (Eco: the HTTP body was served); distinct = distinct event-log hash".to_string()
+        "case index cycles over the seven games (Frontlines: Fuel of War, Savage 2, Just Cause 2: Multiplayer, Mindustry, The Ship, Battalion 1944, Eco); the tape draws the reply (full numeric ranges, empty and long strings, optional trailing fields, 0-100 players, each Battalion override rule present or not, reported-vs-listed player counts), the query variant (query / query_with_timeout) and the transport (challenge rounds, split); oracle: field-for-field equality with the model; Eco: two cases in three over a real HTTP/1.1 exchange (Content-Length / chunked with drawn chunk sizes / read-until-close, gzip or not, keep-alive or close, TCP segmentation), bodies up to 9 kB; non-trivial = a reply was received (Eco: the HTTP body was served); distinct = distinct event-log hash".to_string()
     }
 
     fn assumptions(&self) -> Vec<String> {
         vec![
             "Frontlines, Savage 2, the JC2M player block and the Eco JSON are code-derived golden layouts at the pinned commit (no independent description available offline): they detect any change of field order, width or skip but not a deviation that is already there".into(),
             "Mindustry follows the two Java sources cited in games/mindustry; The Ship and Battalion 1944 use the Valve model with the documented overrides".into(),
-            "Eco is served at the HttpClient seam; ureq is not executed in simulation".into(),
+            "Eco: two cases in three are a real HTTP/1.1 exchange through the vendored HTTP client over the simulated TCP transport, one in three is served at the HttpClient seam".into(),
         ]
     }
+
+    fn required_probes(&self) -> Vec<&'static str> { vec!["http_client_connects_over_simulated_tcp"] }
 
     fn components(&self) -> Value { standard_components() }
 }
